@@ -140,6 +140,12 @@ def cell_encodings():
         "text:line-break": ([Element("text:p", text=a, children=[Element("text:line-break", tail=b)])], [a, "\n", b]),
         "span+tail": ([Element("text:p", children=[Element("text:span", text=a, tail=b)])], [a, b]),
         "two paragraphs": ([Element("text:p", text=a), Element("text:p", text=b)], [a, "\n", b]),
+        "empty paragraph first": ([Element("text:p"), Element("text:p", text=a)], ["\n", a]),
+        "two empty paragraphs first": ([Element("text:p"), Element("text:p"), Element("text:p", text=a)], ["\n\n", a]),
+        "empty paragraph last": ([Element("text:p", text=a), Element("text:p")], [a, "\n"]),
+        "empty paragraph between": ([Element("text:p", text=a), Element("text:p"), Element("text:p", text=b)], [a, "\n\n", b]),
+        "nested spans": ([Element("text:p", text=a, children=[Element("text:span", children=[Element("text:span", text=b)])])], [a, b]),
+        "text:s first": ([Element("text:p", children=[Element("text:s", tail=a)])], [" ", a]),
     }
 
 
@@ -263,7 +269,7 @@ def rule_cell_texts(ctx):
             return (key, "%s: following cell altered" % name, show(rows[0][count]))
         return (key, None, None)
 
-    decide_kinds(ctx, "O15.1", "ods_rows(cell text encodings x column runs)", "cutplace.rowio.ods_rows", cell, min_cells=36)
+    decide_kinds(ctx, "O15.1", "ods_rows(cell text encodings x column runs)", "cutplace.rowio.ods_rows", cell, min_cells=60)
 
 
 def rule_repeats_and_sheets(ctx):
